@@ -102,44 +102,6 @@ Proof.
   cbn [map]. rewrite apply_fill_nil, <- IH. reflexivity.
 Qed.
 
-Lemma apply_fill_no_need (np : plan) (baseline : schema) (a : action) :
-  known_C12_nullable_default np baseline = false -> In a (p_actions np) ->
-  needs_fill (apply_fill (collect_fills (p_actions np) baseline) a) = false.
-Proof.
-  intros Hk Hin. set (m := collect_fills (p_actions np) baseline).
-  destruct a as [t cols ks|t|t col f|t x y|t x|t x ty f|t x n f|t x d|t x d|t k|t k|x y|s]; try reflexivity.
-  - destruct f as [v|]; cbn [apply_fill].
-    + cbn [needs_fill is_none]. rewrite Bool.andb_false_r. reflexivity.
-    + destruct (fv_get t (c_name col) m) as [v|] eqn:E.
-      * cbn [needs_fill is_none]. rewrite Bool.andb_false_r. reflexivity.
-      * cbn [needs_fill is_none]. rewrite Bool.andb_true_r.
-        destruct (negb (c_nullable col) && is_none (c_default col))%bool eqn:C; [|reflexivity].
-        exfalso. destruct (collect_in_add (p_actions np) baseline t col Hin C) as [v Hv].
-        exact (fv_get_in _ _ _ _ Hv E).
-  - destruct f as [v|]; cbn [apply_fill].
-    + cbn [needs_fill is_none]. rewrite Bool.andb_false_r. reflexivity.
-    + destruct (fv_get t x m) as [v|] eqn:E.
-      * cbn [needs_fill is_none]. rewrite Bool.andb_false_r. reflexivity.
-      * cbn [needs_fill is_none]. rewrite Bool.andb_true_r.
-        destruct n; [reflexivity|]. exfalso.
-        assert (C : match lookup_col baseline t x with Some col => is_none (c_default col) | None => true end = true).
-        { destruct (lookup_col baseline t x) as [col|] eqn:L; [|reflexivity].
-          destruct (c_default col) as [dv|] eqn:D; [|reflexivity]. exfalso.
-          unfold known_C12_nullable_default in Hk.
-          assert (X : existsb (fun a => match a with
-                                        | ModifyColumnNullable t c false None =>
-                                            match lookup_col baseline t c with
-                                            | Some col => match c_default col with Some _ => true | None => false end
-                                            | None => false
-                                            end
-                                        | _ => false
-                                        end) (p_actions np) = true).
-          { apply existsb_exists. eexists. split; [exact Hin|]. cbn. rewrite L, D. reflexivity. }
-          rewrite X in Hk. discriminate. }
-        destruct (collect_in_mcn (p_actions np) baseline t x Hin C) as [v Hv].
-        exact (fv_get_in _ _ _ _ Hv E).
-Qed.
-
 Lemma apply_enum_fills_in (i : nat) (l : list action) (me : list (nat * list string)) (a' : action) :
   In a' (apply_enum_fills i l me) -> In a' l \/ needs_fill a' = false.
 Proof.
@@ -152,26 +114,112 @@ Proof.
   - destruct (IH _ H) as [Hl|Hn]; [left; right; exact Hl|right; exact Hn].
 Qed.
 
-(* Outside the known class the loader never rejects a freshly written migration for a missing fill
-   value.  _partial: the other error kind of validate_migration_plan (InvalidEnumDefault: an enum
-   column whose default / fill value is not one of its labels, e.g. an enum without labels) is not
-   excluded by this statement. *)
-Theorem revision_output_loadable_partial (np : plan) (baseline : schema) (w : plan) :
+Lemma default_as_fill_keeps (b : schema) (a : action) :
+  needs_fill a = false -> needs_fill (default_as_fill b a) = false.
+Proof.
+  destruct a as [t cols ks|t|t col f|t x y|t x|t x ty f|t x n f|t x d|t x d|t k|t k|x y|s]; intros H; try exact H.
+  destruct n; [exact H|]. destruct f as [v|]; [exact H|]. discriminate H.
+Qed.
+
+(* every action of the plan: after the fill map and the default-as-fill pass nothing lacks a fill value *)
+Lemma filled_no_need (np : plan) (baseline : schema) (a : action) :
+  In a (p_actions np) ->
+  needs_fill (default_as_fill baseline (apply_fill (collect_fills (p_actions np) baseline) a)) = false.
+Proof.
+  intros Hin. set (m := collect_fills (p_actions np) baseline).
+  destruct a as [t cols ks|t|t col f|t x y|t x|t x ty f|t x n f|t x d|t x d|t k|t k|x y|s]; try reflexivity.
+  - apply default_as_fill_keeps. destruct f as [v|]; cbn [apply_fill].
+    + cbn [needs_fill is_none]. rewrite Bool.andb_false_r. reflexivity.
+    + destruct (fv_get t (c_name col) m) as [v|] eqn:E.
+      * cbn [needs_fill is_none]. rewrite Bool.andb_false_r. reflexivity.
+      * cbn [needs_fill is_none]. rewrite Bool.andb_true_r.
+        destruct (negb (c_nullable col) && is_none (c_default col))%bool eqn:C; [|reflexivity].
+        exfalso. destruct (collect_in_add (p_actions np) baseline t col Hin C) as [v Hv].
+        exact (fv_get_in _ _ _ _ Hv E).
+  - destruct f as [v|]; cbn [apply_fill].
+    + apply default_as_fill_keeps. cbn [needs_fill is_none]. rewrite Bool.andb_false_r. reflexivity.
+    + destruct (fv_get t x m) as [v|] eqn:E.
+      * apply default_as_fill_keeps. cbn [needs_fill is_none]. rewrite Bool.andb_false_r. reflexivity.
+      * destruct n; [reflexivity|]. cbn [default_as_fill].
+        destruct (lookup_col baseline t x) as [col|] eqn:L.
+        -- destruct (c_default col) as [dv|] eqn:D; [reflexivity|]. exfalso.
+           assert (C : match lookup_col baseline t x with Some col => is_none (c_default col) | None => true end = true)
+             by (rewrite L, D; reflexivity).
+           destruct (collect_in_mcn (p_actions np) baseline t x Hin C) as [v Hv].
+           exact (fv_get_in _ _ _ _ Hv E).
+        -- exfalso.
+           assert (C : match lookup_col baseline t x with Some col => is_none (c_default col) | None => true end = true)
+             by (rewrite L; reflexivity).
+           destruct (collect_in_mcn (p_actions np) baseline t x Hin C) as [v Hv].
+           exact (fv_get_in _ _ _ _ Hv E).
+Qed.
+
+(* After the repair of D6 (446c8b4, default_as_fill): whatever plan is handed to `revision`
+   (in particular every plan produced by plan_next) and whatever fill values it already carries,
+   the loader never rejects the written migration for a missing fill value. *)
+Theorem revision_no_missing_fill (np : plan) (baseline : schema) (w : plan) :
   written_of np baseline = Some w ->
-  known_C12_nullable_default np baseline = false ->
   forall t c, validate_migration_plan w <> Err (VMissingFillWith t c).
 Proof.
-  intros Hw Hk. unfold written_of, revision_fill in Hw.
+  intros Hw. unfold written_of, revision_fill in Hw.
   destruct (refuses (p_actions np)); [discriminate|].
   injection Hw as <-. rewrite filled_actions.
   unfold validate_migration_plan. cbn [p_actions].
-  apply first_err_not_missing. intros a' Ha'. apply validate_action_not_missing.
-  destruct (apply_enum_fills_in _ _ _ _ Ha') as [Hl|Hn]; [|exact Hn].
+  apply first_err_not_missing. intros a'' Ha''. apply validate_action_not_missing.
+  apply in_map_iff in Ha'' as [a' [<- Ha']].
+  destruct (apply_enum_fills_in _ _ _ _ Ha') as [Hl|Hn]; [|apply default_as_fill_keeps; exact Hn].
   apply in_map_iff in Hl as [a [<- Hin]].
-  apply apply_fill_no_need; assumption.
+  apply filled_no_need. exact Hin.
 Qed.
 
-(* D6: the faithful model violates revision_output_loadable. *)
+(* what the loader's validation can answer at all *)
+Definition verdict_kind (r : vres) : Prop :=
+  r = Ok tt \/ (exists t c, r = Err (VMissingFillWith t c)) \/ (exists t c v, r = Err (VInvalidEnumDefault t c v)).
+Lemma enum_value_kind (v : string) (vs : enum_values) (t c : string) : verdict_kind (validate_enum_value v vs t c).
+Proof.
+  unfold validate_enum_value, vok. destruct (extract_enum_value v) as [x|]; [destruct (mem_str _ _)|];
+    [left; reflexivity|right; right; do 3 eexists; reflexivity|left; reflexivity].
+Qed.
+Lemma vseq_kind (a b : vres) : verdict_kind a -> verdict_kind b -> verdict_kind (vseq a b).
+Proof.
+  intros Ha Hb. unfold vseq. destruct a as [u|e]; [exact Hb|].
+  destruct Ha as [Ha|Ha]; [discriminate Ha|]. right. exact Ha.
+Qed.
+Lemma first_err_kind {A} (f : A -> vres) (l : list A) : (forall a, verdict_kind (f a)) -> verdict_kind (first_err f l).
+Proof.
+  intros H. induction l as [|a r IH]; cbn [first_err]; [left; reflexivity|].
+  destruct (f a) as [u|e] eqn:E; [exact IH|]. rewrite <- E. apply H.
+Qed.
+Lemma validate_action_kind (a : action) : verdict_kind (validate_action a).
+Proof.
+  destruct a as [t cols ks|t|t col f|t x y|t x|t x ty f|t x n f|t x d|t x d|t k|t k|x y|s];
+    cbn [validate_action]; try (left; reflexivity).
+  - destruct (_ && _ && _)%bool; [right; left; do 2 eexists; reflexivity|].
+    destruct (c_type col); try (left; reflexivity).
+    apply vseq_kind.
+    + destruct f; [apply enum_value_kind|left; reflexivity].
+    + destruct (c_default col); [apply enum_value_kind|left; reflexivity].
+  - destruct f as [fw|]; [|left; reflexivity].
+    destruct ty; try (left; reflexivity).
+    apply first_err_kind. intros kv. apply enum_value_kind.
+  - destruct (_ && _)%bool; [right; left; do 2 eexists; reflexivity|left; reflexivity].
+Qed.
+
+(* revision_output_loadable, full statement of what is and is not guaranteed: the written migration is
+   accepted by the loader, or it is rejected because an enum-typed column's default / fill value is not
+   one of the enum's labels (InvalidEnumDefault) - never for a missing fill value. *)
+Theorem revision_output_loadable (np : plan) (baseline : schema) (w : plan) :
+  written_of np baseline = Some w ->
+  validate_migration_plan w = Ok tt \/ exists t c v, validate_migration_plan w = Err (VInvalidEnumDefault t c v).
+Proof.
+  intros Hw.
+  destruct (first_err_kind validate_action (p_actions w) validate_action_kind) as [H|[[t [c H]]|H]].
+  - left. exact H.
+  - exfalso. exact (revision_no_missing_fill np baseline w Hw t c H).
+  - right. exact H.
+Qed.
+
+(* the former D6 witness: the plan planned for it is now written with the default as fill value and loads *)
 Definition d6_t1 : schema :=
   [mkTable "user" None
      [mkCol "id" (TSimple Integer) false None None (Some (PKBool true)) None None None;
@@ -181,12 +229,12 @@ Definition d6_t2 : schema :=
      [mkCol "id" (TSimple Integer) false None None (Some (PKBool true)) None None None;
       mkCol "name" (TSimple Text) false (Some (DStr "'x'")) None None None None None] []].
 
-Lemma revision_unloadable_refuted :
+Lemma d6_witness_now_loads :
   exists p1 np baseline w,
     plan_next d6_t1 [] = Ok p1 /\ plan_next d6_t2 [p1] = Ok np /\ replay [p1] = Ok baseline /\
     written_of np baseline = Some w /\
-    known_C12_nullable_default np baseline = true /\
-    validate_migration_plan w = Err (VMissingFillWith "user" "name").
+    p_actions w = [ModifyColumnNullable "user" "name" false (Some "'x'")] /\
+    validate_migration_plan w = Ok tt.
 Proof.
   do 4 eexists.
   split; [vm_compute; reflexivity|].
@@ -194,4 +242,19 @@ Proof.
   split; [vm_compute; reflexivity|].
   split; [vm_compute; reflexivity|].
   split; vm_compute; reflexivity.
+Qed.
+
+(* the second disjunct of revision_output_loadable is inhabited: a fill value the user chose on the
+   command line (`revision --fill-with t.status=bogus`, applied before revision_fill, revision.rs:395-399)
+   for an enum-typed column is written unchecked and the loader rejects it *)
+Lemma revision_enum_fill_refuted :
+  exists np baseline w,
+    written_of np baseline = Some w /\
+    validate_migration_plan w = Err (VInvalidEnumDefault "t" "status" "bogus").
+Proof.
+  exists (mkPlan "" None None 2
+            [AddColumn "t" (mkCol "status" (TEnum "status" (EVString ["active"; "done"])) false None None None None None None)
+                       (Some "bogus")]).
+  exists [mkTable "t" None [mkCol "id" (TSimple Integer) false None None (Some (PKBool true)) None None None] []].
+  eexists. split; vm_compute; reflexivity.
 Qed.
